@@ -7,7 +7,8 @@
                                            CSV / SQL iterators: start() linear and shuffled
      snowfakery/data_generator_runtime.py  Interpreter.get_contextual_state (one state per call
                                            site, kept across iterations), RuntimeContext
-                                           (recalculate_every_time is inherited by child contexts)
+                                           (recalculate_every_time is inherited by child contexts;
+                                           on only while a for_each expression is rendered)
      snowfakery/data_generator_runtime_object_model.py
                                            ForEachVariableDefinition.evaluate, ObjectTemplate.
                                            generate_rows / _generate_row / _generate_fields
@@ -182,7 +183,9 @@ Fixpoint store (sid : nat) (v : iter) (l : list (nat * iter)) : list (nat * iter
 
 (* A Dataset.* field of a row.  @memorable: under recalculate_every_time the function is
    simply called (a new iterator each time, stored nowhere); otherwise the iterator of this
-   call site is fetched from / created in instance_states.  Then _generate_fields draws. *)
+   call site is fetched from / created in instance_states.  Then _generate_fields draws.
+   Since the repair of ForEachVariableDefinition.evaluate the flag is on only inside a for_each
+   expression, so every field of a run started by run_recipe is drawn with recalc = false. *)
 Definition site_draw (recalc : bool) (sid : nat) (d : dsref) (s : st) : res R :=
   if recalc then
     match new_iter d (s_orc s) with
@@ -283,12 +286,13 @@ Fixpoint gen_rows (t : tmpl) (rc : bool) (s : st) {struct t} : res unit :=
     | LDefault => count_loop (one_row rc None) 1 0 s
     | LCount m => count_loop (one_row rc None) m 0 s
     | LForEach d =>
-      (* ForEachVariableDefinition.evaluate: context.recalculate_every_time = True (never
-         reset), the expression is rendered under it (a fresh iterator), ret.repeat = False *)
+      (* ForEachVariableDefinition.evaluate: recalculate_every_time is True only while the
+         for_each expression is rendered (a fresh iterator at every evaluation) and is then
+         restored, so the rows are generated under the inherited flag; ret.repeat = False *)
       match new_iter d (s_orc s) with
       | Err e => RErr e (s_out s)
       | Ok (it, orc1) =>
-        each_loop (fun x => one_row true (Some x)) (i_rest it) 0
+        each_loop (fun x => one_row rc (Some x)) (i_rest it) 0
                   (mkSt (s_sites s) orc1 (s_out s))
       end
     end
